@@ -247,7 +247,9 @@ fn main() {
     let nn = near.len() as u64;
     rep.set("near_plane_lattice_points", nn);
     // (scales 1, 2^-12, 2^-20, 2^-26, 2^-80 and 2^30: clip space has no unit)
-    for sc in [1.0f32, 0.000244140625, 9.5367431640625e-7, 1.4901161e-8, 8.271806e-25, 1073741824.0] {
+    // ... and 2^-127, 2^-129: every coordinate a subnormal float with 20-22 significant bits left (plane distances and their
+    // differences are subnormal too; smaller scales lose the precision the tolerances presume)
+    for sc in [1.0f32, 0.000244140625, 9.5367431640625e-7, 1.4901161e-8, 8.271806e-25, 1073741824.0, 5.877472e-39, 1.469368e-39] {
         rep.merge(par_range(&cfg, nn * nn * nn, |i, r| { let t = [near[(i % nn) as usize], near[(i / nn % nn) as usize], near[(i / nn / nn) as usize]].map(|p| p.map(|c| c * sc)); check_single(&t, r); r.h("scaled-near-plane-family"); }));
     }
     // batch pool: first triangle of each (class, output-count, outcode signature) class, 64 triangles
